@@ -17,7 +17,7 @@ CFG = {
          'WIDENING: NewPath/raw = lengths -2..66 x heights -2..66 x 3 search words, 19 extreme int32 values for both, random '
          '(documented range with arbitrary bits / length above height / heights 33..70 / anything), non-trivial when 1<=length<=64 or the call panics; '
          'PathFields/raw and NewPath/rebuild = every canonical mask (h 0..32 x l 0..h) x canonical / stray-bit / above-height / all-ones bits, '
-         'the same masks with one hole or one extra bit, all 256 8-bit mask patterns at 4 positions, random words, non-trivial when the mask half is non-zero; '
+         'the same masks with one hole or one extra bit next to the block ends, every canonical mask with ONE hole at every interior position / ONE extra bit at every lower position, all 256 8-bit mask patterns at 4 positions, random words, non-trivial when the mask half is non-zero; '
          'NewPath/noncanon = heights 0..32 x all lengths x 4 prefixes x 5 extras, non-trivial when extra != 0 and the node is not the root; '
          'NewPath/family = heights 0..5 (thorough: 6) x all ordered pairs, random heights 6..32 with r chosen as q / descendant / last leaf below q / '
          'next_out q or below it / ancestor / node just before q / independent, non-trivial unless both are the root; '
